@@ -236,6 +236,36 @@ Proof.
   exists n. split; [exact E|]. exact (sound_full _ _ Hs E).
 Qed.
 
+(* REPAIRED (finding names-unconn-substring): a net whose name merely contains the text unconn is an
+   ordinary net of a .names statement.  The document is supported and read as it stands; the .names driving
+   __vpr__unconn3 is called by that net (the unrepaired reader gave it the default name), the operand
+   rx_unconnected sits on pin in_1 of the first .names, the net __vpr__unconn3 joins the port, the output
+   of the second .names and pin I of the gate; only the exact word unconn leaves a pin open (recorded on
+   the gate and on the last .names, which keeps a default name); four cables, none for unconn *)
+Lemma names_unconn_substring_repaired :
+  supported doc_names_unconn = true /\
+  exists n m, elab doc_names_unconn = Ok n /\ find_model nm_top (b_models n) = Some m /\
+    denote doc_names_unconn n /\
+    map i_name (m_insts m) = names_unconn_inst_names /\
+    map i_unconn (m_insts m) = names_unconn_open /\
+    same_wire m pin_rx pin_i0_in1 /\ same_wire m pin_vpr pin_i1_out /\ same_wire m pin_vpr pin_i2_I /\
+    length (m_cables m) = 4.
+Proof.
+  assert (Hs : supported doc_names_unconn = true) by (vm_compute; reflexivity).
+  split; [exact Hs|].
+  remember (elab doc_names_unconn) as r eqn:Er. pose proof Er as Er0. vm_compute in Er. subst r.
+  eexists. eexists. split; [reflexivity|]. split; [vm_compute; reflexivity|].
+  split; [apply (sound_full _ _ Hs); symmetry; exact Er0|].
+  split; [vm_compute; reflexivity|]. split; [vm_compute; reflexivity|]. split; [|split; [|split]].
+  - eexists. eexists. split; [right; left; reflexivity|]. split; [left; reflexivity|]. cbn. split; [left; reflexivity|].
+    right. left. reflexivity.
+  - eexists. eexists. split; [right; right; right; left; reflexivity|]. split; [left; reflexivity|]. cbn. split; [left; reflexivity|].
+    right. left. reflexivity.
+  - eexists. eexists. split; [right; right; right; left; reflexivity|]. split; [left; reflexivity|]. cbn. split; [left; reflexivity|].
+    right. right. left. reflexivity.
+  - vm_compute. reflexivity.
+Qed.
+
 (* reading a written file: when it is a supported document, the re-read netlist is what it says *)
 Theorem reread_faithful n n' : supported (emit n) = true -> elab (emit n) = Ok n' -> denote (emit n) n'.
 Proof. apply sound_full. Qed.
